@@ -291,13 +291,36 @@ func (w *c11World) do(kind string) (desc string) {
 // cacheState is what the property compares: devices with definitions, and files in error.
 func cacheState(c *cdi.Cache, dirs []string) (string, map[string]any) {
 	devs := map[string]string{}
-	for _, q := range c.ListDevices() {
-		d := c.GetDevice(q)
-		if d == nil {
-			devs[q] = "<nil>"
-			continue
-		}
-		devs[q] = fmt.Sprintf("%s@%d %s", d.GetSpec().GetPath(), d.GetSpec().GetPriority(), normJSON(d.Device))
+	listings := map[string]string{}
+	// which query is asked first changes from call to call (each of them brings the
+	// cache up to date by itself); what they answer must not depend on it
+	groups := []func(){
+		func() {
+			for _, q := range c.ListDevices() {
+				d := c.GetDevice(q)
+				if d == nil {
+					devs[q] = "<nil>"
+					continue
+				}
+				devs[q] = fmt.Sprintf("%s@%d %s", d.GetSpec().GetPath(), d.GetSpec().GetPriority(), normJSON(d.Device))
+			}
+		},
+		func() { listings["vendors"] = fmt.Sprint(c.ListVendors()) },
+		func() { listings["classes"] = fmt.Sprint(c.ListClasses()) },
+		func() {
+			for _, v := range []string{"vendor.com", "acme.io", "other.org"} {
+				var ps []string
+				for _, sp := range c.GetVendorSpecs(v) {
+					ps = append(ps, fmt.Sprintf("%s@%d", sp.GetPath(), sp.GetPriority()))
+				}
+				sort.Strings(ps)
+				listings["specs of "+v] = fmt.Sprint(ps)
+			}
+		},
+	}
+	turn := int(queryTurn.Add(1))
+	for k := range groups {
+		groups[(turn+k)%len(groups)]()
 	}
 	isDir := map[string]bool{}
 	for _, d := range dirs {
@@ -318,7 +341,7 @@ func cacheState(c *cdi.Cache, dirs []string) (string, map[string]any) {
 	sort.Strings(names)
 	inj := &oci.Spec{}
 	unres, ierr := c.InjectDevices(inj, names...)
-	m := map[string]any{"devices": devs, "files_in_error": errs, "inject_unresolved": unres, "inject_error": fmt.Sprint(ierr), "injected": normJSON(inj)}
+	m := map[string]any{"devices": devs, "listings": listings, "files_in_error": errs, "inject_unresolved": unres, "inject_error": fmt.Sprint(ierr), "injected": normJSON(inj)}
 	return jsonStr(m), m
 }
 
@@ -370,10 +393,9 @@ func checkC11(c *Ctx) {
 			history = append(history, d)
 			fresh, _ := cdi.NewCache(cdi.WithSpecDirs(all...), cdi.WithAutoRefresh(false))
 			want, _ := cacheState(fresh, all)
+			// (no watcher, nothing asynchronous: every query looks at the directories itself,
+			// whichever query comes first, so one round of queries has to be right)
 			got, _ := cacheState(cache, all)
-			if got != want {
-				got, _ = cacheState(cache, all) // second round of queries
-			}
 			c.Count("changes_seen_through_a_watcherless_cache", 1)
 			if got != want {
 				cs.Violation("no-convergence", map[string]string{"last_op": "watcherless", "observed": "queries"}, fmt.Sprintf("an auto-refresh cache that never got a watcher (created while the process could not open a descriptor) does not answer from the directory contents after: %s\n cache %s\n fresh %s", d, clip(got, 1200), clip(want, 1200)), map[string]any{"history": history, "spec_dir_errors": fmt.Sprint(cache.GetSpecDirErrors())})
